@@ -93,10 +93,17 @@ static size_t stack_size;
 static uint64_t n_switches;
 
 static void* ctx_entry(void* p);
+static int deep, fill;
 
 static void ensure(int k) {
   if (exists[k]) return;
   gen[k]++;
+  // the caller's storage is arbitrary when fiber_context_init is called (the project's own
+  // test_context uses an uninitialised array): 0 = zero-filled, 1 = all ones, 2 = whatever the
+  // previous occupant (another created context, or a thread context) left behind
+  if (fill == 0) memset(&ctx[k], 0, sizeof ctx[k]);
+  else if (fill == 1) memset(&ctx[k], 0xff, sizeof ctx[k]);
+  else if (gen[k] == 1) { fiber_context_init_from_thread(&ctx[k]); fiber_context_destroy(&ctx[k]); }
   if (fiber_context_init(&ctx[k], stack_size, ctx_entry, (void*)(uintptr_t)(0xC0DE0000 + k * 256 + gen[k])) != FIBER_SUCCESS)
     fmc_fail("context: fiber_context_init failed for stack size %zu", stack_size);
   exists[k] = 1;
@@ -122,7 +129,6 @@ static void switch_to(int self, int target) {
 // further stack segments), switches away at that depth, and when it is resumed descends again
 // before unwinding; every frame checks its own contents afterwards. A context must find its
 // whole stack - not just the frame it switched from - exactly as it left it.
-static int deep;
 static __attribute__((noinline)) void probe(int depth) {
   volatile unsigned char pad[800];
   for (int i = 0; i < 800; i++) pad[i] = (unsigned char)(depth * 13 + i);
@@ -236,6 +242,7 @@ int harness_main(void) {
   fmc_begin();
   int alpha = NCTX + 2;
   int first = fmc_input(alpha), second = fmc_input(alpha);
+  fill = fmc_input(3);
   uint64_t walks = 0;
   for (int l = 2; l <= len; l++) {
     int rest = l - 2, combos = 1;
